@@ -245,6 +245,9 @@ func (prop) Run(t *testing.T, tape *kernel.Tape, sc kernel.Scenario) *kernel.Res
 	}
 	decoy := tape.Bool(2, "decoy-query-parameter") // another parameter whose name merely ends with the key's name
 	bodyKind := []string{"none", "urlenc", "multipart"}[tape.Choose(3, "body-kind")]
+	if scheme == "bearer" && tape.Bool(2, "bearer-prefers-urlencoded-body") {
+		bodyKind = "urlenc"
+	}
 	queryToken, formToken := "", ""
 	if scheme == "bearer" || tape.Bool(4, "extra-placements") {
 		if tape.Bool(2, "query-token") {
@@ -254,6 +257,12 @@ func (prop) Run(t *testing.T, tape *kernel.Tape, sc kernel.Scenario) *kernel.Res
 			formToken, _ = genStr(tape, "ftoken", false, false, true)
 			env.Fault("token-in-streamed-body")
 		}
+	}
+	// fault: the connection dies while a form body that carries the only bearer token is arriving
+	bodyDies := 0
+	if scheme == "bearer" && formToken != "" && bodyKind == "urlenc" && tape.Bool(2, "body-dies") {
+		bodyDies = 1 + tape.Choose(999, "body-dies-at-permille")
+		env.Fault("request-body-cut")
 	}
 	// ---- model of what is on the wire
 	ws := &wireState{apiHeader: map[string]string{}, query: map[string]string{}, form: map[string]string{}}
@@ -337,7 +346,14 @@ func (prop) Run(t *testing.T, tape *kernel.Tape, sc kernel.Scenario) *kernel.Res
 	if scheme != "bearer" {
 		reqScopes = nil
 	}
-	op := simapi.Op{Method: method, Path: "/secured", ID: "secured", Security: &[]map[string][]string{{"S": reqScopes}}, Params: []simapi.Param{}}
+	// an earlier OR-alternative served by another bearer authenticator that turns every token down
+	rival := scheme == "bearer" && tape.Bool(3, "rival-bearer-scheme-first")
+	secList := []map[string][]string{{"S": reqScopes}}
+	if rival {
+		secList = []map[string][]string{{"S0": nil}, {"S": reqScopes}}
+		env.Fault("rival-bearer-scheme-consulted-first")
+	}
+	op := simapi.Op{Method: method, Path: "/secured", ID: "secured", Security: &secList, Params: []simapi.Param{}}
 	switch bodyKind {
 	case "urlenc":
 		op.Consumes = []string{"application/x-www-form-urlencoded"}
@@ -354,12 +370,16 @@ func (prop) Run(t *testing.T, tape *kernel.Tape, sc kernel.Scenario) *kernel.Res
 	op2 := simapi.Op{Method: "GET", Path: "/other", ID: "other", Security: &[]map[string][]string{{"S": otherScopes}}, Params: []simapi.Param{{Name: "X-Req", In: "header", Type: "string"}}}
 	api := &simapi.API{BasePath: "/api", Consumes: []string{"application/json"}, Produces: []string{"application/json"},
 		SecDefs: map[string]map[string]any{"S": secDef}, Ops: []simapi.Op{op, op2}}
+	if rival {
+		api.SecDefs["S0"] = map[string]any{"type": "oauth2", "flow": "implicit", "authorizationUrl": "http://sim.local/auth0", "scopes": map[string]any{}}
+	}
 	doc, err := api.Doc()
 	if err != nil {
 		res.Infra = "description does not load: " + err.Error()
 		return res
 	}
 	var calls []call
+	ctxMarker := "S"
 	thePrincipal := &principal{n: 1 + tape.Choose(1000, "principal")}
 	cbErr := errors.Unauthenticated("sim")
 	answer := func() (any, error) {
@@ -402,6 +422,7 @@ func (prop) Run(t *testing.T, tape *kernel.Tape, sc kernel.Scenario) *kernel.Res
 		if useCtx {
 			auth = security.BearerAuthCtx("S", func(ctx context.Context, tok string, sc []string) (context.Context, any, error) {
 				calls = append(calls, call{token: tok, scopes: sc, ctxTagged: true})
+				ctxMarker = security.OAuth2SchemeNameCtx(ctx)
 				pr, err := answer()
 				return tag(ctx), pr, err
 			})
@@ -420,6 +441,9 @@ func (prop) Run(t *testing.T, tape *kernel.Tape, sc kernel.Scenario) *kernel.Res
 	u.RegisterConsumer("multipart/form-data", runtime.DiscardConsumer)
 	u.RegisterProducer("application/json", runtime.JSONProducer())
 	u.RegisterAuth("S", rec)
+	if rival {
+		u.RegisterAuth("S0", security.BearerAuth("S0", func(string, []string) (any, error) { return nil, errors.Unauthenticated("S0") }))
+	}
 	oauthMarker := "<authorizer not called>"
 	u.RegisterAuthorizer(&simapi.Authorizer{W: world, Decide: func(_ int, r *http.Request, _ any) error {
 		oauthMarker = security.OAuth2SchemeName(r)
@@ -440,7 +464,7 @@ func (prop) Run(t *testing.T, tape *kernel.Tape, sc kernel.Scenario) *kernel.Res
 	kernel.RunBubble(t, env, func(k *kernel.K1) {
 		bridge := &simhttp.Bridge{Env: env, Name: "wire", Handler: handler,
 			BodyChunkMode: tape.Choose(4, "srv-chunk"), BodyFixed: 1 + tape.Choose(40, "srv-fixed"),
-			PullMode: tape.Choose(4, "pull"), PullFixed: 1 + tape.Choose(60, "pull-fixed")}
+			PullMode: tape.Choose(4, "pull"), PullFixed: 1 + tape.Choose(60, "pull-fixed"), SrvBodyFailPermille: bodyDies}
 		rt := client.New("sim.local", "/api", []string{"http"})
 		rt.Transport = bridge
 		compose := func(l []cred) runtime.ClientAuthInfoWriter {
@@ -545,6 +569,16 @@ func (prop) Run(t *testing.T, tape *kernel.Tape, sc kernel.Scenario) *kernel.Res
 	env.Log("server", "status=%d calls=%v results=%d challenge=%q", code, calls, len(rec.results), challenge)
 	slot := world.Slots[0]
 	// ---- oracle
+	if bodyDies > 0 && !strings.HasPrefix(ws.authorization, "Bearer ") && ws.query["access_token"] == "" {
+		// the only token travels in a body that never arrived completely: it may be unavailable, never wrong
+		for _, c := range calls {
+			if c.token != formToken {
+				env.Violate("C14/credential-differs", sig+":form-token-from-a-truncated-body", "the request body was cut after %d‰; the callback was handed token %q, the transmitted token is %q", bodyDies, c.token, formToken)
+			}
+		}
+		res.FromEnv(env)
+		return res
+	}
 	if len(rec.results) != 1 {
 		env.Violate("C14/authenticator-calls", sig, "authenticator consulted %d times for one request", len(rec.results))
 		res.FromEnv(env)
@@ -580,7 +614,7 @@ func (prop) Run(t *testing.T, tape *kernel.Tape, sc kernel.Scenario) *kernel.Res
 		if got.err != cbErr || got.principal != nil {
 			env.Violate("C14/principal-not-callbacks", sig+":error", "callback failed with %v, authenticator returned principal=%v err=%v", cbErr, got.principal, got.err)
 		}
-		if code != 401 || slot.HandlerRan != 0 {
+		if (code != 401 || slot.HandlerRan != 0) && bodyDies == 0 {
 			env.Violate("C14/status", sig+":rejected", "callback rejected the credential: status %d, handler ran %d", code, slot.HandlerRan)
 		}
 		if scheme == "basic" {
@@ -593,11 +627,11 @@ func (prop) Run(t *testing.T, tape *kernel.Tape, sc kernel.Scenario) *kernel.Res
 		if !slot.AuthzPrincSet || slot.AuthzPrinc != any(thePrincipal) {
 			env.Violate("C14/principal-not-callbacks", sig+":authorizer", "the authorizer saw principal %v, the callback returned %v", slot.AuthzPrinc, thePrincipal)
 		}
-		if code != 200 || slot.HandlerRan != 1 {
+		if (code != 200 || slot.HandlerRan != 1) && bodyDies == 0 { // with the body cut, binding the form parameters legitimately fails
 			env.Violate("C14/status", sig+":accepted", "credential accepted: status %d, handler ran %d", code, slot.HandlerRan)
 		}
-		if scheme == "bearer" && oauthMarker != "S" {
-			env.Violate("C14/oauth2-scheme-marker", sig, "bearer credential accepted for scheme S, but the request carries the OAuth2 scheme marker %q", oauthMarker)
+		if scheme == "bearer" && (oauthMarker != "S" || ctxMarker != "S") {
+			env.Violate("C14/oauth2-scheme-marker", sig, "bearer credential accepted for scheme S, but the request carries the OAuth2 scheme marker %q (the callback's context named %q)", oauthMarker, ctxMarker)
 		}
 	}
 	res.FromEnv(env)
